@@ -16,6 +16,7 @@ Proved (all abstract states / points):
 -/
 import Spade.Proofs.AbsLemmas
 import Spade.Proofs.GeomLemmas
+import Spade.Proofs.ConstrainInv
 namespace Spade
 open AState
 
@@ -58,5 +59,32 @@ theorem C12_zero_length (a c d : Pt) : ¬ ProperCross a a c d := by
   rw [this] at h1; omega
 
 example : ProperCross ⟨0, 0⟩ ⟨2, 2⟩ ⟨0, 2⟩ ⟨2, 0⟩ ∧ ¬ ProperCross ⟨0, 0⟩ ⟨2, 2⟩ ⟨1, 1⟩ ⟨2, 0⟩ := by decide
+
+/-! ### on the constraint-insertion model (compared index for index with `can_add_constraint`,
+`try_add_constraint` and `add_constraint` of a CDT, clause `C12:model`) -/
+
+/-- "`try_add_constraint` returns an empty list and changes nothing when `can_add_constraint` is
+false": in the model the `Cancel` exit of the conflict search is taken exactly when
+`can_add_constraint` answers `false`, for every state and every pair of vertices -/
+theorem C12_model_refused_changes_nothing (s : St) (a b : Nat) (h : s.canAddM a b = false) :
+    s.tryAddConstraintM a b = some (s, []) :=
+  St.tryAdd_refused s a b h
+
+theorem C12_model_cancel_iff (s : St) (a b : Nat) :
+    s.conflictGroups a b = none ↔ s.canAddM a b = false :=
+  St.conflictGroups_none_iff s a b
+
+/-- when `can_add_constraint` answers `true` the call is never refused -/
+theorem C12_model_accepted (s : St) (a b : Nat) (h : s.canAddM a b = true) :
+    ∃ groups, s.conflictGroups a b = some groups ∧ s.tryAddConstraintM a b = s.resolveGroups groups :=
+  St.tryAdd_accepted_of_canAdd s a b h
+
+/-- non-vacuity: on the square with the constraint 0–2, the model refuses 1–3 (and accepts it
+before 0–2 is a constraint, by flipping the diagonal) -/
+example : ((emptyM.insertAllM [(⟨0,0⟩,0,0), (⟨4,0⟩,1,0), (⟨4,4⟩,2,0), (⟨0,4⟩,3,1)]).bind fun s =>
+    (s.tryAddConstraintM 0 2).bind fun r => (r.1.tryAddConstraintM 1 3).map fun t =>
+      (s.canAddM 1 3 && (s.tryAddConstraintM 1 3).map (·.2) == some [4] && r.2 == [5] && !r.1.canAddM 1 3 &&
+        t.2 == [] && t.1.flag == r.1.flag)) = some true := by
+  decide +kernel
 
 end Spade
